@@ -5,6 +5,8 @@ package drpcconn
 
 import (
 	"context"
+	"errors"
+	"io"
 	"sync"
 
 	"github.com/zeebo/errs"
@@ -135,6 +137,21 @@ func (c *Conn) Invoke(ctx context.Context, rpc string, enc drpc.Encoding, in, ou
 }
 
 func (c *Conn) doInvoke(stream *drpcstream.Stream, enc drpc.Encoding, rpc string, data []byte, metadata []byte, out drpc.Message) (err error) {
+	if err := c.doInvokeSend(stream, rpc, data, metadata); err != nil {
+		// a send reports io.EOF once the stream has been ended by the remote
+		// (or canceled): the reason it ended is delivered to the receive, so
+		// fall through to it instead of hiding the reason behind io.EOF.
+		if !errors.Is(err, io.EOF) {
+			return err
+		}
+	}
+	if err := stream.MsgRecv(out, enc); err != nil {
+		return err
+	}
+	return nil
+}
+
+func (c *Conn) doInvokeSend(stream *drpcstream.Stream, rpc string, data []byte, metadata []byte) (err error) {
 	if len(metadata) > 0 {
 		if err := stream.RawWrite(drpcwire.KindInvokeMetadata, metadata); err != nil {
 			return err
@@ -147,9 +164,6 @@ func (c *Conn) doInvoke(stream *drpcstream.Stream, enc drpc.Encoding, rpc string
 		return err
 	}
 	if err := stream.CloseSend(); err != nil {
-		return err
-	}
-	if err := stream.MsgRecv(out, enc); err != nil {
 		return err
 	}
 	return nil
